@@ -648,8 +648,8 @@ def lonePawn : Board :=
   { Board.new with pieces := fun t => if t = .pawn then bbOf 12 else 0#64,
                    colors := fun c => if c = .white then bbOf 12 else 0#64,
                    combined := bbOf 12, checks := bbOf 12 }
-/-- the same with an empty check mask -/
-def lonePawnQuiet : Board := { lonePawn with checks := 0#64 }
+/-- the same with an empty check mask and no castling rights -/
+def lonePawnQuiet : Board := { lonePawn with checks := 0#64, rights := fun _ => .neither }
 /-- a game value standing on it -/
 def lonePawnGame : Game := ⟨lonePawn, History.fromPosition lonePawn, [], .ongoing, []⟩
 
